@@ -11,12 +11,11 @@
 
 use super::common::*;
 use crate::engine::{CheckDef, Ctx, Verdict};
-use crate::factory::{MkErr, make_block};
 use crate::model;
-use crate::obj::{N_VIA, via_single};
+use crate::obj::N_VIA;
 use crate::prng::Rng;
 use crate::scn::{Op, Scn};
-use crate::{invalid, violation};
+use crate::invalid;
 
 pub fn def() -> CheckDef {
     CheckDef {
@@ -71,111 +70,5 @@ fn exec(scn: &Scn, ctx: &mut Ctx) -> Verdict {
     if !MODES.contains(&scn.mode.as_str()) {
         invalid!("mode");
     }
-    env_setup(scn, false);
-    let bs = scn.bs;
-    let total: usize = scn.ops.iter().filter(|o| o.k == "blocks").map(|o| o.n as usize).sum();
-    if total > 4096 {
-        invalid!("too long");
-    }
-    // the whole input stream
-    let mut input = scn.bytes(0, total * bs);
-    let honest = scn.num("honest");
-    if scn.mode.ends_with("dec") && honest > 0 && total > 0 {
-        // an honest ciphertext of the pool data, produced by the *model* (it is only input here)
-        let enc_mode = scn.mode.replace("dec", "enc");
-        let mut s2 = scn.clone();
-        s2.mode = enc_mode;
-        input = model_run(&s2, &input).0;
-        if honest == 2 {
-            let bit = scn.num("flip") as usize % (input.len() * 8);
-            input[bit / 8] ^= 1 << (bit % 8);
-            ctx.fault("ciphertext_bit_flip");
-        }
-    } else if scn.mode.ends_with("dec") {
-        ctx.probe("dishonest_ciphertext");
-    }
-    let (want, _) = model_run(scn, &input);
-
-    let mut obj = match make_block(&scn.mode, bs, scn.cipher, &scn.key, &scn.iv, 0, 0) {
-        Ok(o) => o,
-        Err(MkErr::Unsupported) => invalid!("unsupported combination"),
-        Err(MkErr::Rejected) => violation!("construct", "inner_iv_init path rejected a correct key/iv"),
-    };
-    sig_base(ctx, scn);
-    ctx.probe_if(bs == 1, "bs1");
-    ctx.probe_if(bs == 255, "bs255");
-    let mut done = 0usize; // blocks
-    let w = scn.pol[0].max_width() as u64;
-    let mut last_tail = false;
-    for (i, op) in scn.ops.iter().enumerate() {
-        ctx.sig.s(&op.k);
-        match op.k.as_str() {
-            "blocks" => {
-                let n = op.n as usize;
-                let via = op.via % N_VIA;
-                ctx.sig.u(via as u64);
-                ctx.sig.u(size_class(op.n, w));
-                let inp = &input[done * bs..(done + n) * bs];
-                let mut out = scn.dirt(done * bs, n * bs);
-                let st0 = crate::simcipher::env_stats();
-                obj.proc(via, op.p as u64, inp, &mut out);
-                let st1 = crate::simcipher::env_stats();
-                ctx.fp.bytes(&out);
-                let par = st1.par_groups - st0.par_groups;
-                // the modes do not forward tail calls: a tail shows up as single blocks after parallel groups
-                let tail = if par > 0 { st1.singles - st0.singles } else { 0 };
-                ctx.probe_if(par >= 2 && tail > 0, "par_groups_then_tail");
-                ctx.probe_if(par > 0, "par_group");
-                ctx.probe_if(via == crate::obj::VIA_SCRIPT || via == crate::obj::VIA_SCRIPT_B2B, "script_call");
-                last_tail = tail > 0;
-                if n > 0 {
-                    ctx.nontrivial = true;
-                }
-                let exp = &want[done * bs..(done + n) * bs];
-                if out != exp {
-                    let d = first_diff(&out, exp);
-                    violation!(
-                        "output",
-                        "op {} ({} blocks via {}{}): output differs from the recurrence at block {} (stream block {}): got {} want {}",
-                        i, n, via, if via_single(via) { " single" } else { "" }, d / bs, done + d / bs,
-                        hexs(&out[d / bs * bs..(d / bs + 1) * bs]), hexs(&exp[d / bs * bs..(d / bs + 1) * bs])
-                    );
-                }
-                done += n;
-            }
-            "restart" => {
-                let st = match obj.export() {
-                    Some(s) => s,
-                    None => invalid!("no export"),
-                };
-                drop(obj);
-                obj = match make_block(&scn.mode, bs, scn.cipher, &scn.key, &st, 0, 0) {
-                    Ok(o) => o,
-                    Err(_) => violation!("restart", "exported state of length {} rejected by inner_iv_init path", st.len()),
-                };
-                ctx.probe("restart");
-                ctx.fault("restart_from_exported_state");
-            }
-            "clone" => {
-                let c = obj.dup();
-                drop(obj);
-                obj = c;
-                ctx.probe("clone");
-            }
-            _ => invalid!("op kind {}", op.k),
-        }
-        // chaining value after every operation
-        let (_, chain) = model_run(scn, &input[..done * bs]);
-        match obj.export() {
-            Some(st) => {
-                ctx.fp.bytes(&st);
-                ctx.probe_if(last_tail && op.k == "blocks", "state_after_tail");
-                if st != chain {
-                    violation!("state", "after op {} ({}): iv_state {} != model chaining value {} after {} blocks", i, op.k, hexs(&st), hexs(&chain), done);
-                }
-            }
-            None => invalid!("no export"),
-        }
-    }
-    Verdict::Ok
+    block_history(scn, ctx, &model_run, false)
 }
